@@ -17,6 +17,7 @@ ShapeOf(fn, out) == IF out = <<>> THEN "nil"
                     ELSE "multipolygon"
 RingOk(e) ==
    /\ MPInBox(e.box, e.out)
+   /\ e.pstable = 1                                            \* the previous call's result was left alone
    /\ MPClosed(e.out)
    /\ \A i \in 1..Len(e.out) : Len(e.out[i]) >= 1            \* no polygon without rings comes out
    /\ RegionOK(e.box, e.in, e.out, e.st)
